@@ -270,7 +270,8 @@ def run_group(bu, g, extra_defs=(), label=None):
         target = b_gb
     else:
         target = a_gb
-    cb = ['cbmc', target] + CBMC_CHECKS + ['--json-ui', '--trace', '--object-bits', g.attrs.get('object_bits', '10')]
+    skip = set(g.attrs.get('skip_checks', '').split(','))
+    cb = ['cbmc', target] + [c for c in CBMC_CHECKS if c not in skip] + ['--json-ui', '--trace', '--object-bits', g.attrs.get('object_bits', '10')]
     if g.unwind:
         cb += ['--unwind', g.unwind, '--unwinding-assertions']
     cb += solver_flags(g)
